@@ -55,7 +55,12 @@ def texts_for(rng, row):
                 'https://l.example/a+b', 'https://l.example/100%25', 'none']
     elif kind == 'KAst':
         out += ['today', 'now', 'year', 'month', 'epoch', '2024-01-01T00:00:00Z', '2024-01-01T01:30:00+01:30',
-                '2023-12-31T19:00:00-05:00', '2024-01-01T00:00:00.250Z']
+                '2023-12-31T19:00:00-05:00', '2024-01-01T00:00:00.250Z', '2023-12-31T20:30:00-03:30', '2024-01-01T05:45:00+05:45',
+                '2023-12-31T23:30:00-00:30']
+        for _ in range(3):
+            off = rng.randint(-14 * 60, 14 * 60)
+            local = datetime.datetime(2024, 1, 1, 12, 0, 0) + datetime.timedelta(minutes=off)
+            out.append('%s%s%02d:%02d' % (local.strftime('%Y-%m-%dT%H:%M:%S'), '+' if off >= 0 else '-', abs(off) // 60, abs(off) % 60))
     elif kind == 'KDrm':
         systems, locs = ['playready', 'clearkey', 'marlin'], ['pro', 'cenc', 'moov']
         out += ['all', 'none']
